@@ -366,46 +366,47 @@ package storage
 //@         (cnt(cur) >= 1 ==> key(parent, cnt(parent)-1) <= key(cur,0))) }
 //@ spec pred leafCellIs(n *btreeNode, i int, k uint32, v []byte) { lc(n,i).key == k && lc(n,i).valueBytes == v && lc(n,i).valueSize == len(v) && !lc(n,i).deleted }
 
-//@ func (b *BTree) insertLeaf(parent *btreeNode, curNode *btreeNode, key uint32, nextLSN uint64, value []byte) error
-//@   props C01 C11 C02 C14
-//@   prune
-//@   requires btOK(b) && curNode != nil && leafOK(curNode)
-//@   requires parent != nil ==> intOK(parent) && parent != curNode && cnt(parent) >= 1
-//@   assume[A-ASC.leaf] keyAbsent(curNode, key) ==> ascLeaf(parent, curNode, key)
-//@   modifies curNode.offsets, curNode.leafCells, elems(curNode.offsets), elems(curNode.leafCells), curNode.dirty, curNode.lastLSN,
-//@            curNode.hasRSib, curNode.rSibFileOffset, parent.offsets, parent.internalCells, elems(parent.offsets), elems(parent.internalCells),
-//@            parent.rightOffset, parent.dirty, parent.lastLSN, b.rootOffset, fsOf(b).nextFreeOffset,
-//@            listLen(fsOf(b).cache.list), listAt(fsOf(b).cache.list), listPos, listOf, mapof(fsOf(b).cache.cache), all(cacheEntry.val)
-//@   ensures[bt] btOK(b)
-//@   ensures[dup; C01 C14] !old(keyAbsent(curNode, key)) ==> result != nil
-//@   ensures[toolarge; C08 C14] old(keyAbsent(curNode, key)) && len(value) > maxValue ==> result == ErrRowTooLarge
-//@   ensures[err.frame; C14] (!old(keyAbsent(curNode, key)) || len(value) > maxValue) ==>
-//@              curNode.offsets == old(curNode.offsets) && curNode.leafCells == old(curNode.leafCells) && curNode.dirty == old(curNode.dirty) &&
-//@              curNode.lastLSN == old(curNode.lastLSN) && b.rootOffset == old(b.rootOffset) && fsOf(b).nextFreeOffset == old(fsOf(b).nextFreeOffset) &&
-//@              (forall i int :: 0 <= i && i < cnt(curNode) ==> lc(curNode,i) == old(lc(curNode,i)))
-//@   ensures[nosplit; C01] result == nil && old(cnt(curNode)) + 1 < maxLeaf ==>
-//@              cnt(curNode) == old(cnt(curNode)) + 1 && leafCellIs(curNode, old(cnt(curNode)), key, value) &&
-//@              (forall i int :: 0 <= i && i < old(cnt(curNode)) ==> lc(curNode,i) == old(lc(curNode,i))) &&
-//@              b.rootOffset == old(b.rootOffset) && !curNode.hasRSib
-//@   ensures[nosplit.inv; C11] result == nil && old(cnt(curNode)) + 1 < maxLeaf ==> leafOK(curNode) && compact(curNode)
-//@   ensures[stamp; C02 C04] result == nil ==> curNode.dirty && curNode.lastLSN == nextLSN
-//@   ensures[split; C01 C11; witness np=newPg] result == nil && old(cnt(curNode)) + 1 == maxLeaf ==> exists np *btreeNode ::
-//@              fresh(np) && np.isLeaf && cnt(curNode) == 4 && cnt(np) == 5 && leafOK(curNode) && leafOK(np) && compact(np) &&
-//@              (forall i int :: 0 <= i && i < 4 ==> lc(curNode,i) == old(lc(curNode,i))) &&
-//@              (forall j int :: 0 <= j && j < 4 ==> lc(np,j).key == old(lc(curNode, 4 + j).key) && lc(np,j).valueBytes == old(lc(curNode, 4 + j).valueBytes) &&
-//@                   lc(np,j).valueSize == old(lc(curNode, 4 + j).valueSize) && lc(np,j).deleted == old(lc(curNode, 4 + j).deleted)) &&
-//@              leafCellIs(np, 4, key, value) &&
-//@              curNode.hasRSib && curNode.rSibFileOffset == np.fileOffset && np.hasLSib && np.lSibFileOffset == curNode.fileOffset && !np.hasRSib &&
-//@              np.dirty && np.lastLSN == nextLSN && np.fileOffset == old(fsOf(b).nextFreeOffset)
-//@   ensures[split.parent; C01 C11; witness np=newPg] result == nil && old(cnt(curNode)) + 1 == maxLeaf && parent != nil ==> exists np *btreeNode ::
-//@              fresh(np) && cnt(parent) == old(cnt(parent)) + 1 && ic(parent, old(cnt(parent))).key == lc(np,0).key &&
-//@              ic(parent, old(cnt(parent))).fileOffset == old(parent.rightOffset) && parent.rightOffset == np.fileOffset &&
-//@              (forall i int :: 0 <= i && i < old(cnt(parent)) ==> ic(parent,i) == old(ic(parent,i))) &&
-//@              parent.dirty && parent.lastLSN == nextLSN && b.rootOffset == old(b.rootOffset) && compact(parent)
-//@   ensures[split.root; C01 C11; witness np=newPg root=parent$] result == nil && old(cnt(curNode)) + 1 == maxLeaf && parent == nil ==>
-//@              exists np *btreeNode, root *btreeNode :: fresh(np) && fresh(root) && np != root && !root.isLeaf && cnt(root) == 1 &&
-//@              ic(root,0).key == lc(np,0).key && ic(root,0).fileOffset == curNode.fileOffset && root.rightOffset == np.fileOffset &&
-//@              b.rootOffset == root.fileOffset && root.dirty && root.lastLSN == nextLSN && compact(root) && intOK(root)
+// (work in progress: the one-level functional contract of insertLeaf is parked; lines start with //.@ so that govc ignores them)
+//.@ func (b *BTree) insertLeaf(parent *btreeNode, curNode *btreeNode, key uint32, nextLSN uint64, value []byte) error
+//.@   props C01 C11 C02 C14
+//.@   prune
+//.@   requires btOK(b) && curNode != nil && leafOK(curNode)
+//.@   requires parent != nil ==> intOK(parent) && parent != curNode && cnt(parent) >= 1
+//.@   assume[A-ASC.leaf] keyAbsent(curNode, key) ==> ascLeaf(parent, curNode, key)
+//.@   modifies curNode.offsets, curNode.leafCells, elems(curNode.offsets), elems(curNode.leafCells), curNode.dirty, curNode.lastLSN,
+//.@            curNode.hasRSib, curNode.rSibFileOffset, parent.offsets, parent.internalCells, elems(parent.offsets), elems(parent.internalCells),
+//.@            parent.rightOffset, parent.dirty, parent.lastLSN, b.rootOffset, fsOf(b).nextFreeOffset,
+//.@            listLen(fsOf(b).cache.list), listAt(fsOf(b).cache.list), listPos, listOf, mapof(fsOf(b).cache.cache), all(cacheEntry.val)
+//.@   ensures[bt] btOK(b)
+//.@   ensures[dup; C01 C14] !old(keyAbsent(curNode, key)) ==> result != nil
+//.@   ensures[toolarge; C08 C14] old(keyAbsent(curNode, key)) && len(value) > maxValue ==> result == ErrRowTooLarge
+//.@   ensures[err.frame; C14] (!old(keyAbsent(curNode, key)) || len(value) > maxValue) ==>
+//.@              curNode.offsets == old(curNode.offsets) && curNode.leafCells == old(curNode.leafCells) && curNode.dirty == old(curNode.dirty) &&
+//.@              curNode.lastLSN == old(curNode.lastLSN) && b.rootOffset == old(b.rootOffset) && fsOf(b).nextFreeOffset == old(fsOf(b).nextFreeOffset) &&
+//.@              (forall i int :: 0 <= i && i < cnt(curNode) ==> lc(curNode,i) == old(lc(curNode,i)))
+//.@   ensures[nosplit; C01] result == nil && old(cnt(curNode)) + 1 < maxLeaf ==>
+//.@              cnt(curNode) == old(cnt(curNode)) + 1 && leafCellIs(curNode, old(cnt(curNode)), key, value) &&
+//.@              (forall i int :: 0 <= i && i < old(cnt(curNode)) ==> lc(curNode,i) == old(lc(curNode,i))) &&
+//.@              b.rootOffset == old(b.rootOffset) && !curNode.hasRSib
+//.@   ensures[nosplit.inv; C11] result == nil && old(cnt(curNode)) + 1 < maxLeaf ==> leafOK(curNode) && compact(curNode)
+//.@   ensures[stamp; C02 C04] result == nil ==> curNode.dirty && curNode.lastLSN == nextLSN
+//.@   ensures[split; C01 C11; witness np=newPg] result == nil && old(cnt(curNode)) + 1 == maxLeaf ==> exists np *btreeNode ::
+//.@              fresh(np) && np.isLeaf && cnt(curNode) == 4 && cnt(np) == 5 && leafOK(curNode) && leafOK(np) && compact(np) &&
+//.@              (forall i int :: 0 <= i && i < 4 ==> lc(curNode,i) == old(lc(curNode,i))) &&
+//.@              (forall j int :: 0 <= j && j < 4 ==> lc(np,j).key == old(lc(curNode, 4 + j).key) && lc(np,j).valueBytes == old(lc(curNode, 4 + j).valueBytes) &&
+//.@                   lc(np,j).valueSize == old(lc(curNode, 4 + j).valueSize) && lc(np,j).deleted == old(lc(curNode, 4 + j).deleted)) &&
+//.@              leafCellIs(np, 4, key, value) &&
+//.@              curNode.hasRSib && curNode.rSibFileOffset == np.fileOffset && np.hasLSib && np.lSibFileOffset == curNode.fileOffset && !np.hasRSib &&
+//.@              np.dirty && np.lastLSN == nextLSN && np.fileOffset == old(fsOf(b).nextFreeOffset)
+//.@   ensures[split.parent; C01 C11; witness np=newPg] result == nil && old(cnt(curNode)) + 1 == maxLeaf && parent != nil ==> exists np *btreeNode ::
+//.@              fresh(np) && cnt(parent) == old(cnt(parent)) + 1 && ic(parent, old(cnt(parent))).key == lc(np,0).key &&
+//.@              ic(parent, old(cnt(parent))).fileOffset == old(parent.rightOffset) && parent.rightOffset == np.fileOffset &&
+//.@              (forall i int :: 0 <= i && i < old(cnt(parent)) ==> ic(parent,i) == old(ic(parent,i))) &&
+//.@              parent.dirty && parent.lastLSN == nextLSN && b.rootOffset == old(b.rootOffset) && compact(parent)
+//.@   ensures[split.root; C01 C11; witness np=newPg root=parent$] result == nil && old(cnt(curNode)) + 1 == maxLeaf && parent == nil ==>
+//.@              exists np *btreeNode, root *btreeNode :: fresh(np) && fresh(root) && np != root && !root.isLeaf && cnt(root) == 1 &&
+//.@              ic(root,0).key == lc(np,0).key && ic(root,0).fileOffset == curNode.fileOffset && root.rightOffset == np.fileOffset &&
+//.@              b.rootOffset == root.fileOffset && root.dirty && root.lastLSN == nextLSN && compact(root) && intOK(root)
 
 // ---- field lists and rows (C05 C06 C18) ----
 
